@@ -219,6 +219,31 @@ func TestVX_C03(t *testing.T) {
 		run("other-digest", b.px, b.py, vx.Fill("c03other", 32), b.r, b.s)
 		run("swapped-rs", b.px, b.py, b.e, b.s, b.r)
 	}
+	// (vi) keys with a tiny x coordinate: the equation is satisfied by construction (s, t chosen, r = t - s, e = r - x_R, no
+	// private key needed); the canonical encoding must be accepted, the same point presented as x+p (still 32 bytes) or
+	// y+p must be rejected as a non-canonical key
+	for pi, P := range sm2ref.SmallXPoints(4) {
+		sv := modN(bi(vx.Fill(fmt.Sprintf("c03sx%d", pi), 32)))
+		tv := modN(bi(vx.Fill(fmt.Sprintf("c03tx%d", pi), 32)))
+		rv := modN(new(big.Int).Sub(tv, sv))
+		if rv.Sign() == 0 || sv.Sign() == 0 || tv.Sign() == 0 {
+			continue
+		}
+		R := sm2ref.MulAdd(sv, tv, P)
+		if R.Inf {
+			continue
+		}
+		e := modN(new(big.Int).Sub(rv, R.X))
+		run(fmt.Sprintf("smallx:%d:canonical", pi), b32(P.X), b32(P.Y), b32(e), b32(rv), b32(sv))
+		run(fmt.Sprintf("smallx:%d:x+p", pi), b32(new(big.Int).Add(P.X, sm2ref.P)), b32(P.Y), b32(e), b32(rv), b32(sv))
+		if yp := new(big.Int).Add(P.Y, sm2ref.P); yp.BitLen() <= 256 {
+			run(fmt.Sprintf("smallx:%d:y+p", pi), b32(P.X), b32(yp), b32(e), b32(rv), b32(sv))
+		}
+		negY := new(big.Int).Sub(sm2ref.P, P.Y)
+		if yp := new(big.Int).Add(negY, sm2ref.P); yp.BitLen() <= 256 {
+			run(fmt.Sprintf("smallx:%d:-y+p", pi), b32(P.X), b32(yp), b32(e), b32(rv), b32(sv))
+		}
+	}
 	// (v) short-t / short-r / short-s valid signatures must be accepted (solved as in C01)
 	d := keys["sa"]
 	px, py := sm2ref.Pub(d)
